@@ -25,7 +25,7 @@ CHECKS = {
          "DESIGN.md §3 C13"),
  "C03": ("property-based differential testing vs reference interpreter over the configuration product (rapid)",
          "Random provable programs biased to edge shapes x 7 curves x {Groth16, PLONK} x consistent hash / statistical-ZK / solver-task options; the reference interpreter classifies the assignment: satisfying => Setup, Prove and Verify (two forms of the public witness) all succeed and a verifier with a different hash option rejects; non-satisfying => Prove returns an error within a bound, without panic.",
-         "Interleavings of the internally concurrent provers are sampled (whatever the scheduler does in N runs), not enumerated; a hang is only declared after 120 s for work that takes milliseconds.",
+         "Interleavings of the internally concurrent provers are sampled (whatever the scheduler does in N runs), not enumerated; a prover that does not return is recognised by CPU time consumed (240 s for work that takes milliseconds) or by an idle process, never by the wall clock alone; a slow machine gives an inconclusive (discarded) case.",
          "DESIGN.md §3 C03"),
  "C06": ("validity predicate on every solver output + independent replay solver (rapid)",
          "Every Solve of generated programs and of wide level-parallel circuits (lookup tables, range checks, hints, specialised gates; both builders; task counts 1..512; systems restored from bytes) is re-evaluated independently: every exported row / gate / copy class on the returned solution, identical solutions across task counts, a Levels partition/dependency oracle derived from sequential semantics, and a harness-written sequential solver that must agree with Solve's verdict in both directions.",
